@@ -571,6 +571,24 @@ def check_precedence(case):
             return "config-file-not-in-effect"
         return "default-not-in-effect"
 
+    # a second option given explicitly with its own default value: by the property itself that changes nothing, for
+    # that option or for this one (options are independent)
+    other = next((o for o in (_L, _N, _I, _O) if o != opt and o in CLI_ACCEPT.get(sub, ())), None)
+    if other is not None:
+        argv2 = argv + cli_flags(other, DEFAULT[other], "long")
+        res = run_cli(argv2, stdin, build_files(case, False))
+        if res.exc is not None:
+            raise res.exc
+        obs = scen.observe(res, exp, stdin)
+        if obs is not None:
+            cls.append("nt:other-option-explicit")
+            if obs != want:
+                f.add(
+                    f"precedence/{name}/{opt}/{clause(which_layer(obs))}/with-another-option-explicit",
+                    f"argv={argv2} files={ {k: v.decode() for k, v in build_files(case, False).items()} } "
+                    f"effective={obs!r} (layer: {which_layer(obs)}) expected={want!r} (layer: {layer}) :: {res.brief()}",
+                )
+
     clean_ok = None
     for unknown in (False, True) if has_file else (False,):
         res = run_cli(argv, stdin, build_files(case, unknown))
